@@ -180,4 +180,56 @@ def ellipsisOk : List Bool → Bool
   | [_] => true
   | e :: rest => if e then rest.all id else ellipsisOk rest
 
+/-! ### NNX filter literals (`to_predicate`) -/
+
+/-- the forms `filterlib.to_predicate` accepts: a `str`, a class, a `bool`, `...`, `None`, a list / tuple of
+filters, the combinators `Any` / `All` / `Not` (whose arguments are themselves converted by `to_predicate`),
+or an already-built predicate object -/
+inductive SFilter where
+  | str (s : String)
+  | type (t : String)
+  | bool (b : Bool)
+  | ellipsis
+  | none_
+  | seq (fs : List SFilter)
+  | any (fs : List SFilter)
+  | allOf (fs : List SFilter)
+  | not (f : SFilter)
+  | pred (f : NFilter)
+  deriving Repr, Inhabited
+
+mutual
+  /-- `filterlib.to_predicate` -/
+  def toPredicate : SFilter → NFilter
+    | .str s => .withTag s
+    | .type t => .ofType t
+    | .bool true => .everything
+    | .bool false => .nothing
+    | .ellipsis => .everything
+    | .none_ => .nothing
+    | .seq fs => .any (toPredicates fs)
+    | .any fs => .any (toPredicates fs)
+    | .allOf fs => .allOf (toPredicates fs)
+    | .not f => .not (toPredicate f)
+    | .pred f => f
+  def toPredicates : List SFilter → List NFilter
+    | [] => []
+    | f :: fs => toPredicate f :: toPredicates fs
+end
+
+/-- `filter_ in (..., True)` -/
+def isCatchAll : SFilter → Bool
+  | .ellipsis => true
+  | .bool true => true
+  | _ => false
+
+/-- `filters_to_predicates`: the `...`-must-be-last check, then `to_predicate` on every filter -/
+def filtersToPredicates (fs : List SFilter) : Option (List NFilter) :=
+  if ellipsisOk (fs.map isCatchAll) then some (toPredicates fs) else Option.none
+
+/-- `State.split` / `split_state` on literal filters: `none` is the ValueError of the `...` check; the result
+has one bucket per filter plus the bucket of the unmatched (which `split` requires to be empty) -/
+def splitLiteral (fs : List SFilter) (items : List (Path × VarInfo)) : Option (List (List (Path × VarInfo))) :=
+  (filtersToPredicates fs).map (fun ps => splitStates ps items)
+
 end Flax.Filter
